@@ -484,9 +484,15 @@ impl Prop for C16Prop {
                     _ => None,
                 }
             };
-            let (a1, a2, b1) = (at(5000), at(5000), at(777_777));
-            if a1.is_some() && a1 == a2 && b1.is_some() && a1 != b1 {
-                return Some(id);
+            let (a1, a2) = (at(5000), at(5000));
+            if a1.is_some() && a1 == a2 {
+                // (the dependence can be on single digits of the name: several other values)
+                for n in [777_777usize, 0, 99_999, 123_456, 1_000_001, 31, 2_222_222, 808] {
+                    let b1 = at(n);
+                    if b1.is_some() && a1 != b1 {
+                        return Some(id);
+                    }
+                }
             }
         }
         match v.sig.as_str() {
